@@ -42,7 +42,7 @@ func MarshalBinary[T any](t TestingT, cases []CaseBinary[T]) {
 		if !assert.NoError(t, callForCase(i, &c, c.Before), failInfo) {
 			continue
 		}
-		b, err := safeMarshalBinary(any(c.Value).(encoding.BinaryMarshaler))
+		b, err := safeMarshalBinary(c.Value)
 		if !assert.NoError(t, callForCase(i, &c, c.After), failInfo) {
 			continue
 		}
@@ -80,7 +80,7 @@ func UnmarshalBinary[T any](t TestingT, cases []CaseBinary[T], helper TypeHelper
 			continue
 		}
 		v := helperNew[T](helper, c.Value)
-		err := safeUnmarshalBinary(f(&v).(encoding.BinaryUnmarshaler), c.Data)
+		err := safeUnmarshalBinary(f, &v, c.Data)
 		if !assert.NoError(t, callForCase(i, &c, c.After), failInfo) {
 			continue
 		}
@@ -96,16 +96,18 @@ func UnmarshalBinary[T any](t TestingT, cases []CaseBinary[T], helper TypeHelper
 	}
 }
 
-func safeMarshalBinary(m encoding.BinaryMarshaler) (data []byte, err error) {
+func safeMarshalBinary(value any) (data []byte, err error) {
 	defer func() {
 		err = panicError(err, recover())
 	}()
-	return m.MarshalBinary()
+	// type assertion is part of protected call, value can be nil interface
+	return value.(encoding.BinaryMarshaler).MarshalBinary()
 }
 
-func safeUnmarshalBinary(u encoding.BinaryUnmarshaler, data []byte) (err error) {
+func safeUnmarshalBinary[T any](f func(*T) encoding.BinaryUnmarshaler, v *T, data []byte) (err error) {
 	defer func() {
 		err = panicError(err, recover())
 	}()
-	return u.UnmarshalBinary(data)
+	// call of f is part of protected call, *v can be nil interface
+	return f(v).UnmarshalBinary(data)
 }
